@@ -89,6 +89,9 @@ var allTerms = func() []string {
 	var out []string
 	add := func(t reflect.Type) {
 		for i := 0; i < t.NumField(); i++ {
+			if !t.Field(i).IsExported() {
+				continue
+			}
 			tm := vmodel.Term(t.Field(i))
 			if !seen[tm] {
 				seen[tm] = true
@@ -351,15 +354,33 @@ func decodeOnce(c *Ctx, e decodeEntry, in []byte, followUps bool) {
 		return
 	}
 	c.Count("values-returned", 1)
-	for _, op := range allRoOps {
-		if skipOp(op, it) {
-			continue
-		}
-		c.Pending("follow-up " + op.Name + " after " + e.Name + " :: " + base64.StdEncoding.EncodeToString(in[:minInt(len(in), 160)]))
+	// the value is described by its Go type and, when it differs from what that Go type is normally called, the type name it
+	// carries (a decoder of one struct kind fed a document of another): the operation class of the write-ahead record, hence
+	// the signature of a process-fatal outcome, then names the value and the operation, not the decoder or the input.
+	// The operations run in an order rotated by the input, so that one that kills the process does not hide the ones after it.
+	desc := valueDesc(it)
+	start := int(H64(string(in)) % uint64(len(allRoOps)))
+	for k := range allRoOps {
+		op := allRoOps[(start+k)%len(allRoOps)]
+		c.Pending("follow-up " + op.Name + " on " + desc + " :: after " + e.Name + " " + base64.StdEncoding.EncodeToString(in[:minInt(len(in), 160)]))
 		c.Guard("follow-up "+op.Name+" after "+decoderFamily(e.Name), func() { _ = op.apply(it, nil) })
 		c.Eval(1)
 		c.Count("follow-ups", 1)
 	}
+}
+
+func valueDesc(it vocab.Item) string {
+	d := fmt.Sprintf("%T", it)
+	d = strings.TrimPrefix(strings.Replace(d, "activitypub.", "", 1), "vocab.")
+	var typ string
+	func() {
+		defer func() { _ = recover() }()
+		typ = string(it.GetType())
+	}()
+	if k, ok := vmodel.KindOfType(typ); ok && typ != "" && k.Name != strings.TrimPrefix(d, "*") {
+		d += " typed " + typ
+	}
+	return d
 }
 
 func decoderFamily(name string) string {
